@@ -353,7 +353,11 @@ fn register_marks(e: &mut ParallelRuleEngine) {
     for k in 0..NFLAGS {
         let path = flag_path(k);
         e.register_function(&format!("mark{}", k), move |_args, facts| {
-            facts.set(&path, rust_rule_engine::Value::Boolean(true));
+            // the same write many times over: the result is the same, but other workers meet a writer at the lock a
+            // hundred times more often (lock-order and re-entrancy mistakes in the readers need a waiting writer to show)
+            for _ in 0..128 {
+                facts.set(&path, rust_rule_engine::Value::Boolean(true));
+            }
             Ok(rust_rule_engine::Value::Null)
         });
     }
